@@ -107,6 +107,33 @@ def run(ctx):
                     ctx.violation("diagnostic range outside the binding text", {"case": {"program": pool.programs[i][0]}, "qml": pool.sources[i], "impl_output": d})
     bad = pool.compare_model() if ctx.model_ok else []
     ctx.coverage["disagreements_model"] = len(bad)
+    # ---- the same kind of programs with comments at every line boundary (between switch clauses, before `default:`, inside blocks, after the
+    # last statement): comments may be refused where the grammar walker does not expect them, they must never shift positions into a panic
+    def with_comments(src):
+        lines = src.split("\n")
+        out = []
+        for ln in lines:
+            if rng.random() < 0.35:
+                out.append(rng.choice(["// note", "/* c */", "/* a\n b */", "// case 9:"]))
+            out.append(ln + (rng.choice(["  // t", " /* t */"]) if rng.random() < 0.2 else ""))
+        return "\n".join(out)
+    if ctx.replay and isinstance(ctx.replay.get("case"), dict) and "tir_source" in ctx.replay["case"]:
+        src = ctx.replay["case"]["tir_source"]
+        r = C.harness_run(vh, "tir", [{"source": src, "callback": True}], timeout=120)[0]
+        if not isinstance(r, dict) or "panic" in r or "crash" in r or "hang" in r:
+            ctx.violation("tir::build* panics/crashes/hangs on a program with comments: %s" % json.dumps(r)[:300], {"case": {"tir_source": src}, "qml": src, "impl_output": r})
+    cpool = tircheck.Pool(ctx)
+    cpool.transform = with_comments
+    sk = tircheck.skeleton_statements(2)
+    cpool.add([x for x in sk if x[1].startswith("switch")][:: (1 if ctx.tier == "thorough" else 7)])
+    cpool.add_generated(1500 if ctx.tier == "thorough" else 200, mutate_every=0, max_depth=4)
+    cpool.run()
+    for i, e in enumerate(cpool.expected):
+        ctx.count(("commented", cpool.sources[i]), isinstance(e, list) and e[0] == 0)
+        if e is None:
+            ctx.violation("tir::build* panics/crashes/hangs on a program with comments: %s" % json.dumps(cpool.impl[i])[:300],
+                          {"case": {"tir_source": cpool.sources[i]}, "qml": cpool.sources[i], "impl_output": cpool.impl[i]})
+    ctx.coverage["commented_programs"] = len(cpool.sources)
     # ---- documents
     base = docs.corpus() + EXTRA
     nmut = 25 if ctx.tier == "thorough" else 3
